@@ -369,7 +369,7 @@ func reportViolation(t *testing.T, p props.Property, sc *sim.Scenario, v props.V
 	bestV := v
 	steps := 0
 	if !spec.NoShrink {
-		best, bestV, steps = shrink(t, p, sc, v, 300)
+		best, bestV, steps = shrink(t, p, sc, v, 500)
 	}
 	out := execute(t, best, true)
 	rf := ReplayFile{Property: p.ID(), Rule: bestV.Rule, Detail: bestV.Detail, Facts: bestV.Facts, LogHash: out.LogHash, Shrunk: !spec.NoShrink, ShrinkSteps: steps, Scenario: best}
